@@ -463,8 +463,8 @@ func (s *scen) scenario() *sched.Scenario {
 		Threads:  s.threads,
 		Check:    s.check,
 		StateKey: s.stateKey,
-		MaxSteps: 5000,
-		POR:      true,
+		MaxSteps: 5000, HorizonViolates: true,
+		POR: true,
 	}
 }
 
@@ -590,7 +590,7 @@ func signature(what string) string {
 		return "C09:lost-without-overlap"
 	case contains(what, "update lock still held"):
 		return "C09:update-lock-leaked"
-	case contains(what, "deadlock"), contains(what, "livelock"), contains(what, "did not complete"):
+	case contains(what, "deadlock"), contains(what, "livelock"), contains(what, "did not complete"), contains(what, "does not terminate"):
 		return "C09:non-termination"
 	}
 	return "C09:" + what
